@@ -1456,3 +1456,47 @@ Qed.
 Theorem test_cmdline_args w f a t :
   test_cmdline w f a t = (w ++ f) ++ a ++ t /\ (w = [] -> t = [] -> test_cmdline w f a t = f ++ a).
 Proof. split; [reflexivity|]. intros -> ->. unfold test_cmdline. cbn [app]. rewrite app_nil_r. reflexivity. Qed.
+
+(* ------------------------------------------------------------------ leftmost-key-match semantics *)
+
+(* no template key matches at any position inside the prefix p (looking at the whole rest of
+   the argument: a key may not even start in p and run into what follows) *)
+Definition key_free_before (d : tdict) (p rest : str) : Prop :=
+  forall p1 p2, p = p1 ++ p2 -> p2 <> [] -> try_keys d (p2 ++ rest) = None.
+
+(* every occurrence of a template key at a position that is not inside an earlier key match is
+   replaced: the text before it is copied, the value inserted, the scan resumes behind the key.
+   In particular an unknown @WORD@ in front of it - `owner@HOST@INPUT@` - cannot hide it. *)
+Theorem sub_go_leftmost d : forall p k v r,
+  k <> [] -> key_free_before d p (k ++ r) ->
+  try_keys d (k ++ r) = Some (TStr v, length k) ->
+  sub_go d O (p ++ k ++ r) = option_map (fun t => p ++ v ++ t) (sub_go d O r).
+Proof.
+  induction p as [|c p IH]; intros k v r Hk Hfree Hm.
+  - cbn [app]. rewrite (sub_go_placeholder d k v r Hk Hm). destruct (sub_go d O r); reflexivity.
+  - cbn [app sub_go].
+    pose proof (Hfree [] (c :: p) eq_refl ltac:(discriminate)) as N. cbn [app] in N. rewrite N.
+    rewrite (IH k v r Hk); [destruct (sub_go d O r); reflexivity | | exact Hm].
+    intros p1 p2 E Hne. apply (Hfree (c :: p1) p2); [rewrite E; reflexivity | exact Hne].
+Qed.
+
+(* the same for a list-valued key with exactly one file (@INPUT@ / @OUTPUT@ inside a string) *)
+Theorem sub_go_leftmost_list d : forall p k x r,
+  k <> [] -> key_free_before d p (k ++ r) ->
+  try_keys d (k ++ r) = Some (TList [x], length k) ->
+  sub_go d O (p ++ k ++ r) = option_map (fun t => p ++ x ++ t) (sub_go d O r).
+Proof.
+  induction p as [|c p IH]; intros k x r Hk Hfree Hm.
+  - destruct k as [|c0 k]; [congruence|]. cbn [app] in Hm |- *. cbn [sub_go]. rewrite Hm. cbn [tval_text length pred].
+    rewrite sub_go_skip. destruct (sub_go d O r); reflexivity.
+  - cbn [app sub_go].
+    pose proof (Hfree [] (c :: p) eq_refl ltac:(discriminate)) as N. cbn [app] in N. rewrite N.
+    rewrite (IH k x r Hk); [destruct (sub_go d O r); reflexivity | | exact Hm].
+    intros p1 p2 E Hne. apply (Hfree (c :: p1) p2); [rewrite E; reflexivity | exact Hne].
+Qed.
+
+(* the seeded example, in the model: one input a.c *)
+Example owner_host_input :
+  sub_go [(s2l "@INPUT@", TList [s2l "a.c"]); (s2l "@INPUT0@", TStr (s2l "a.c"))] O (s2l "owner@HOST@INPUT@")
+  = Some (s2l "owner@HOSTa.c").
+Proof. vm_compute. reflexivity. Qed.
